@@ -7,7 +7,7 @@ import os
 VERIF = os.path.dirname(os.path.dirname(os.path.abspath(__file__)))
 
 CHECKS = {
-    'C01': dict(level='exploration', technique='end-to-end crawl monitor: server request log + URL-table rows vs independent scope/BFS reference, over generated sites, options, concurrency and response orders; monitor B: FTP server command log of recursive FTP crawls (every file retrieved exactly once)',
+    'C01': dict(level='exploration', technique='end-to-end crawl monitor: server request log + URL-table rows vs independent scope/BFS reference, over generated sites, options, real pipeline concurrency (set the way a plug-in sets it, up to 12 items in flight against 6 connections per host, keep-alive and closing servers) and response orders, with a no-progress (hang) watchdog; monitor B: FTP server command log of recursive FTP crawls (every file retrieved exactly once)',
                 text='Real application crawls of generated site graphs against a logging loopback server; an offline checker decides exactly-once, fixpoint completeness and final states on the recorded trace. Sampling, not exhaustive.',
                 note='compat runtime; harness server and reference scope predicate are trusted; loopback sockets'),
     'C02': dict(level='exploration', technique='differential runtime oracle: real filter stack built from real CLI options vs independent scope predicate; plus request-log monitor on crawls offering out-of-scope links (HTTP sites and recursive FTP trees)',
@@ -43,7 +43,7 @@ CHECKS = {
     'C12': dict(level='exploration', technique='controlled event-loop scheduler (one handle per step, DFS + random schedules) with invariant monitor between steps and at quiescence; cancellation/connect-failure/remote-close fault branches; monitor B: the real HTTP / web / robots clients and generic pool clients over direct, proxy and dual-stack pools against hostile peers, with quiescence, probe-fetch and transport-closed oracles',
                 text='The real ConnectionPool runs on a deterministic scheduler that enumerates resume orders; holder sets, per-host bounds, lost wake-ups and leaks are asserted between steps and at quiescence.',
                 note='scheduler replaces only the event loop run-once policy; in-memory transports'),
-    'C13': dict(level='exploration', technique='controlled event-loop scheduler with task/source event log and quiescence (hang) detection; stop/concurrency-change/exception branches; monitor B: the real Application over a pipeline series configured like the real Builder, with stop requests, pauses and interrupt signals',
+    'C13': dict(level='exploration', technique='controlled event-loop scheduler with task/source event log, hooked start of the final wait of process(), and quiescence (hang) detection; stop/concurrency-change/exception branches; monitor B: the real Application over a pipeline series configured like the real Builder, with stop requests, pauses and interrupt signals',
                 text='The real Pipeline runs with instrumented source and tasks on the deterministic scheduler; an oracle over the (task,item,start/end) log decides order/at-most-once/exactly-once and bounded completion.',
                 note='scheduler; instrumented ItemSource/ItemTask are harness code'),
     'C14': dict(level='exploration', technique='model-based runtime monitor: every table call compared with a dict reference after each step of generated histories, incl. reopen',
@@ -55,7 +55,7 @@ CHECKS = {
     'C16': dict(level='exploration', technique='strict request parser over client bytes captured from the real WebSession through scripted redirect/cookie/auth peers (direct, relaying / TLS / tunnelling / authenticating proxies); monitor B: per-origin secret markers searched in every raw request of whole crawls; monitor C: requests relayed by the proxy server from a pipelining client',
                 text='Every request the real client writes to the fake connection is parsed strictly and compared with the hop URL; credential/cookie provenance is tracked per host.',
                 note='in-memory transport'),
-    'C17': dict(level='exploration', technique='control-connection byte monitor and reply-segmentation differential under scripted FTP peers',
+    'C17': dict(level='exploration', technique='control-connection byte monitor and reply-segmentation differential (incl. lines around the 64 KiB line limit) under scripted FTP peers',
                 text='Every write on the FTP control connection is matched against the one-line grammar for URLs with every byte value encoded; replies are re-read under all segmentations; transfer completion ordering is asserted.',
                 note='in-memory transport; reference reply assembler'),
     'C18': dict(level='exploration', technique='request counting per visit/URL against limits under redirect loops, endless chains and perpetual failures; bounded-progress (quiescence) check',
